@@ -117,6 +117,8 @@ HANDLER_RULES = [
     Rule("R1", "$x . as_ref ( ) . clone ( )", "clone_prim ( & * $x )", why="Box<Primitive> clone"),
     Rule("R1", "$x . as_ref ( ) . to_owned ( )", "clone_prim ( & * $x )", why="Box<Primitive> clone"),
     Rule("R1", "bool ! ( $$e )", "Primitive :: Bool ( $$e )", why="bool! shorthand"),
+    Rule("R9", "$a == Primitive :: $v ( $$e )", "prim_equal ( & $a , & Primitive :: $v ( $$e ) )", why="derived PartialEq of Primitive (different variants are never equal)"),
+    Rule("R9", "$a != Primitive :: $v ( $$e )", "! prim_equal ( & $a , & Primitive :: $v ( $$e ) )", why="derived PartialEq of Primitive"),
     Rule("R1", "name . to_owned ( )", "clone_vs ( name )", why="String clone"),
 ]
 
